@@ -57,7 +57,8 @@ function parseNum(s) {
 
 module.exports = function (repo, loadPrelude) {
   const timers = [];
-  const { P } = loadPrelude(repo, { now: () => 1000, setTimeout: (fn) => { timers.push(fn); return timers.length; }, clearTimeout: () => { } });
+  let curPick = 0; // Math.random() is (curPick + 0.5) / 12: $select picks ready[floor((2*curPick+1)*n/24)]
+  const { P } = loadPrelude(repo, { random: () => (curPick + 0.5) / 12, now: () => 1000, setTimeout: (fn) => { timers.push(fn); return timers.length; }, clearTimeout: () => { } });
   // the js package's Object type, declared the way the compiler emits it (compiler/natives/src/runtime/runtime.go:70 sets $jsObjectPtr)
   const X = P(`(function(){
      var Obj = $newType(0, $kindStruct, "js.Object", true, "github.com/gopherjs/gopherjs/js", true, function(o) { this.$val = this; if (arguments.length === 0) { this.object = null; return; } this.object = o; });
@@ -72,7 +73,7 @@ module.exports = function (repo, loadPrelude) {
     nilFunc: P('$throwNilPointerError'), Opaque: X.Opaque, String: P('$String'),
     Array: P('Array'), Map: P('Map'), newObject: P('(function(){ return {}; })'),
     mkJsFunc: P('(function(cb){ return function(){ return cb(); }; })'),
-    send: P('$send'), recv: P('$recv'), Chan: P('$Chan'), Int: P('$Int'),
+    send: P('$send'), recv: P('$recv'), select: P('$select'), Chan: P('$Chan'), Int: P('$Int'),
   };
   const BASIC = { Tb: '$Bool', Ti: '$Int', Ti8: '$Int8', Ti16: '$Int16', Ti32: '$Int32', Tu: '$Uint', Tu8: '$Uint8', Tu16: '$Uint16', Tu32: '$Uint32',
     Tup: '$Uintptr', TI64: '$Int64', TU64: '$Uint64', Tf32: '$Float32', Tf64: '$Float64', Ts: '$String' };
@@ -340,6 +341,15 @@ module.exports = function (repo, loadPrelude) {
         try {
           obs = guarded(() => {
             if (p[0] === 'send') { const r = R.send(chan, Number(p[2])); return r && r.$blk !== undefined ? 'blocked' : 'done'; }
+            if (p[0] === 'sel') { // sel_<g>_<pick>_<case>.<case>…  with cases s<v> | r | d
+              curPick = Number(p[2]);
+              const comms = p[3].split('.').map(c => c === 'r' ? [chan] : c === 'd' ? [] : [chan, Number(c.slice(1))]);
+              const r = R.select(comms);
+              if (r && r.$blk !== undefined) return 'blocked';
+              if (r.length === 1) return 'sel:' + r[0];
+              if (r[1] && r[1].$blk !== undefined) return 'blocked';
+              return 'sel:' + r[0] + (r[1][1] ? ':value:' + r[1][0] : ':zero');
+            }
             const r = R.recv(chan);
             if (r && r.$blk !== undefined) return 'blocked';
             return r[1] ? 'value:' + r[0] : 'zero';
